@@ -75,7 +75,7 @@ def gen_case(rng, rich_criterion=False, small=False):
                   criterion=gen_criterion(rng, rich_criterion))
     params["async"] = rng.random() < 0.75
     if rng.random() < 0.12:
-        # start_jobs_without_delay=False: outside the properties' quantifier; model correspondence only (run_b)
+        # start_jobs_without_delay=False (model run_b)
         params["sjwd"] = False
     style = rng.choice(["plain", "plain", "pausey", "stoppy", "faulty", "quiet", "exhaust", "chaos"])
     profile = dict(polls=rng.choice([6, 10, 16, 25, 40]) if not small else rng.randint(1, 4),
@@ -346,8 +346,8 @@ def check_c12(params, out):
         by_exception = out["outcome"][0] not in ("normal", "failure_limit") or out.get("replaced_exception")
         aborted_poll = len(poll_pos) if (by_exception and not poll_finished) else None
         for t, k in out["failed_in_poll"]:
-            if k == aborted_poll:
-                continue  # an exception ended the loop inside that poll, before the status was recorded
+            if k == aborted_poll or k > len(poll_pos):
+                continue  # an exception ended the loop inside that poll, before the status was recorded / no such poll
             truth[t] = poll_pos[k - 1] if 0 < k <= len(poll_pos) else 0
         # a trial that is resumed afterwards is in progress again (only possible after the scheduler's own PAUSE)
         still_failed = sorted(t for t, pos in truth.items()
@@ -546,15 +546,21 @@ def scripted_runs(ctx, cases, checker, prop_name, shard=20):
         if len(ctx.samples) < 2 and 20 < len(out["trace"]) < 80:
             ctx.sample(dict(params=case["params"], style=case.get("style"), trace_head=out["trace"][:25],
                             outcome=out["outcome"], status_map=out["smap"]))
-        if case["params"].get("sjwd", True):
-            for what, sig in checker(case["params"], out):
-                ctx.violation("property", what, case=rep, signature=sig)
-        else:
+        # start_jobs_without_delay=False is outside the properties' quantifier, but since /repo 1516ffc (F-C02-2) the
+        # same properties hold there, so the independent checkers judge those runs as well
+        for what, sig in checker(case["params"], out):
+            if not case["params"].get("sjwd", True):
+                sig = dict(sig, start_jobs_without_delay=False)
+            ctx.violation("property", what, case=rep, signature=sig)
+        if not case["params"].get("sjwd", True):
             polled = {t for ev in out["trace"] if ev[0] == "b_fetch" for t in ev[1]}
             started = [i for i, ev in enumerate(out["trace"]) if ev[0] == "b_start"]
             later_poll = lambda i: any(ev[0] == "b_fetch" for ev in out["trace"][i:])
             lost = [out["trace"][i][1] for i in started if out["trace"][i][1] not in polled and later_poll(i)]
             ctx.h("sjwd_false", "started_trial_never_polled" if lost else "no_lost_trial")
+            if lost:
+                ctx.violation("property", "start_jobs_without_delay=False: trials %s were started but no later poll lists them" % lost,
+                              case=rep, signature=dict(check="sjwd_false", event="started_trial_never_polled"))
         terms.append(coq_case(case, out))
         meta.append((rep, out))
     if terms:
